@@ -956,20 +956,22 @@ pub mod implementations {
             bail!("`unwrap` requires a primitive at the top of the local operating stack");
         };
 
-        if let Primitive::Optional(optional) = primitive
-            .move_out_of_heap_primitive_borrow()
-            .context("could not move out of heap primitive")?
-            .as_ref()
-        {
-            if let Some(new_primitive) = optional {
-                *primitive = *new_primitive.clone();
-            } else {
+        // a list element, field or map entry arrives as a pointer: `get` yields the value itself.
+        let value = primitive
+            .clone()
+            .move_out_of_heap_primitive()
+            .context("could not move out of heap primitive")?;
+
+        match value {
+            Primitive::Optional(Some(ref new_primitive)) => *primitive = *new_primitive.clone(),
+            Primitive::Optional(None) => {
                 let span = args.first().map(String::as_str);
                 bail!(
                     "LOGIC ERROR IN CODE >> {}: unwrap of `nil`",
                     span.unwrap_or("<no details>")
                 );
             }
+            other => *primitive = other,
         }
 
         Ok(())
@@ -996,6 +998,13 @@ pub mod implementations {
         {
             ctx.pop();
             return Ok(());
+        }
+
+        // present: leave the value itself (not a pointer into a list, object or map) on the stack.
+        if let Some(top) = ctx.get_last_op_item_mut() {
+            if let Primitive::HeapPrimitive(..) = top {
+                *top = top.clone().move_out_of_heap_primitive()?;
+            }
         }
 
         ctx.signal(InstructionExitState::Goto(lines_to_jump));
